@@ -1,4 +1,5 @@
 import IdModel.Doc.Resolve
+import IdModel.Doc.QueryStrLemmas
 /-!
 # C04 — DID document id-uniqueness and round trip hold across every mutation history
 
@@ -231,5 +232,202 @@ example : run ⟨0, [], [], [], [], [], [], []⟩ (demoOps.take 5) =
 
 example : resolveMethod (run ⟨0, [], [], [], [], [], [], []⟩ (demoOps.take 5)) (Query.ofId m1.id) (some (.rel .auth))
     = some m1 := by decide
+
+
+/-! ## queries as STRINGS (`DIDUrlQuery`): the three forms a caller can pass denote the abstract queries above
+
+`Doc/QueryStr.lean` transliterates `did_str` / `fragment` / `matches` over byte lists; the prefix that makes a query "a full
+DID URL" is regenerated (`Gen.C04.queryPrefix`). -/
+
+section QueryStrings
+open QueryStr
+
+/-- `#fragment` -/
+theorem matches_hash (f D : List Nat) (g : Option (List Nat)) (hf : cHash ∉ f) :
+    matchesStr (cHash :: f) D g = (!f.isEmpty && g == some f) := by
+  have h1 : didStr (cHash :: f) = none := by simp [didStr, prefix_head_ne_hash]
+  have h2 : fragment (cHash :: f) = if f.isEmpty then none else some f := by
+    have := rfind_last cHash [] f hf
+    simp only [List.nil_append, List.length_nil] at this
+    simp only [fragment, prefix_head_ne_hash, this]
+    cases f <;> simp [Option.filter]
+  unfold matchesStr
+  rw [h1, h2]
+  cases f with
+  | nil => simp
+  | cons a t =>
+    cases g with
+    | none => simp
+    | some v => simp only [Bool.not_false, Bool.true_and, List.isEmpty_cons]; rw [Bool.eq_iff_iff]; simp only [Bool.false_eq_true, if_false, beq_iff_eq, Option.some.injEq]; exact eq_comm
+
+/-- the bare fragment -/
+theorem matches_bare (f D : List Nat) (g : Option (List Nat)) (hf : cHash ∉ f) (hp : isFull f = false) :
+    matchesStr f D g = (!f.isEmpty && g == some f) := by
+  have h1 : didStr f = none := by simp [didStr, hp]
+  have h2 : fragment f = if f.isEmpty then none else some f := by
+    simp only [fragment, hp, rfind_none cHash f hf]
+    cases f <;> simp [Option.filter]
+  unfold matchesStr
+  rw [h1, h2]
+  cases f with
+  | nil => simp
+  | cons a t =>
+    cases g with
+    | none => simp
+    | some v => simp only [Bool.not_false, Bool.true_and, List.isEmpty_cons]; rw [Bool.eq_iff_iff]; simp only [Bool.false_eq_true, if_false, beq_iff_eq, Option.some.injEq]; exact eq_comm
+
+/-- **resolving by bare fragment**: a non-empty string without `#` that is not itself DID-URL-like (does not start with
+`did:`) matches exactly the identifiers whose fragment is that string — whatever their DID.  (With the prefix test of the
+pinned commit, `starts_with("did")`, this failed for every fragment that merely begins with the letters d-i-d: found by this
+obligation, repaired, see DESIGN §12.3.) -/
+theorem bare_fragment_query (f D : List Nat) (g : Option (List Nat)) (hf : cHash ∉ f) (hne : f ≠ [])
+    (hp : ([100, 105, 100, 58] : List Nat).isPrefixOf f = false) :
+    matchesStr f D g = (g == some f) := by
+  have hfull : isFull f = false := hp
+  rw [matches_bare f D g hf hfull]
+  cases f with
+  | nil => exact absurd rfl hne
+  | cons a t => simp
+
+/-- the string form of a DID URL: DID, then nothing or a path / query part, then `#fragment` -/
+theorem full_parts (D pq f : List Nat) (hD : isFull D = true)
+    (h1 : cQmark ∉ D) (h2 : cSlash ∉ D) (h3 : cHash ∉ D)
+    (hpq : pq = [] ∨ ∃ t, pq = cSlash :: t ∨ pq = cQmark :: t) (hq : cHash ∉ pq) (hf : cHash ∉ f) :
+    didStr (D ++ pq ++ cHash :: f) = some D ∧
+    fragment (D ++ pq ++ cHash :: f) = if f.isEmpty then none else some f := by
+  have hfull : isFull (D ++ pq ++ cHash :: f) = true := by
+    rw [List.append_assoc]; exact isFull_append D _ hD
+  constructor
+  · unfold didStr
+    simp only [hfull, Bool.not_true, Bool.false_eq_true, if_false]
+    rw [List.append_assoc, find_append _ _ _ h1, find_append _ _ _ h2, find_append _ _ _ h3]
+    have key : ∀ (a b c : Option Nat), (a = some 0 ∨ b = some 0 ∨ c = some 0) →
+        min (min (min (D ++ (pq ++ cHash :: f)).length ((a.map (· + D.length)).getD (D ++ (pq ++ cHash :: f)).length))
+          ((b.map (· + D.length)).getD (min (D ++ (pq ++ cHash :: f)).length ((a.map (· + D.length)).getD (D ++ (pq ++ cHash :: f)).length))))
+          ((c.map (· + D.length)).getD (min (min (D ++ (pq ++ cHash :: f)).length ((a.map (· + D.length)).getD (D ++ (pq ++ cHash :: f)).length))
+          ((b.map (· + D.length)).getD (min (D ++ (pq ++ cHash :: f)).length ((a.map (· + D.length)).getD (D ++ (pq ++ cHash :: f)).length))))) = D.length := by
+      intro a b c h
+      have hl : D.length ≤ (D ++ (pq ++ cHash :: f)).length := by simp
+      generalize (D ++ (pq ++ cHash :: f)).length = L at *
+      cases a <;> cases b <;> cases c <;> simp at h ⊢ <;> omega
+    rw [key]
+    · simp
+    · rcases hpq with rfl | ⟨t, rfl | rfl⟩
+      · right; right; simp [find]
+      · right; left; simp [find]
+      · left; simp [find]
+  · unfold fragment
+    simp only [hfull, if_true]
+    rw [rfind_last cHash (D ++ pq) f hf]
+    have hd : List.drop ((D ++ pq).length + 1) (D ++ pq ++ cHash :: f) = f := by
+      rw [List.drop_append]; simp
+    simp only [Option.map_some, hd]
+    cases f <;> simp [Option.filter]
+
+/-- a full id whose fragment is absent matches nothing -/
+theorem full_nofrag (D pq : List Nat) (hD : isFull D = true) (h3 : cHash ∉ D) (hq : cHash ∉ pq) :
+    fragment (D ++ pq) = none := by
+  unfold fragment
+  have hn : cHash ∉ D ++ pq := by simp [h3, hq]
+  simp [isFull_append D pq hD, rfind_none cHash _ hn, Option.filter]
+
+/-- how the abstract identifiers of the document model are written as strings: DIDs are full (carry the prefix) and hold no
+delimiter, fragments are non-empty, hold no `#` and are not themselves DID-URL-like, the path / query part starts with its
+delimiter; different numbers are different strings -/
+structure Enc where
+  did : Nat → List Nat
+  frag : Nat → List Nat
+  pq : Nat → List Nat
+  did_inj : ∀ a b, did a = did b → a = b
+  frag_inj : ∀ a b, frag a = frag b → a = b
+  did_full : ∀ d, isFull (did d) = true
+  did_clean : ∀ d, cQmark ∉ did d ∧ cSlash ∉ did d ∧ cHash ∉ did d
+  frag_clean : ∀ f, cHash ∉ frag f ∧ frag f ≠ []
+  frag_notfull : ∀ f, isFull (frag f) = false
+  pq_ok : ∀ p, (pq p = [] ∨ ∃ t, pq p = cSlash :: t ∨ pq p = cQmark :: t) ∧ cHash ∉ pq p
+
+def Enc.idStr (E : Enc) (i : Id) : List Nat :=
+  match i.frag with
+  | some f => E.did i.did ++ E.pq i.pq ++ cHash :: E.frag f
+  | none => E.did i.did ++ E.pq i.pq
+
+theorem beq_enc (e : Nat → List Nat) (inj : ∀ a b, e a = e b → a = b) (a b : Nat) :
+    (e a == e b) = (a == b) := by
+  rw [Bool.eq_iff_iff]; simp only [beq_iff_eq]; exact ⟨inj a b, fun h => h ▸ rfl⟩
+
+/-- **the string form of a DID URL, passed as a query, is the abstract query `Query.ofId`** -/
+theorem str_full (E : Enc) (k i : Id) :
+    matchesStr (E.idStr k) (E.did i.did) (i.frag.map E.frag) = (Query.ofId k).matches i := by
+  obtain ⟨c1, c2, c3⟩ := E.did_clean k.did
+  obtain ⟨p1, p2⟩ := E.pq_ok k.pq
+  unfold Enc.idStr Query.ofId Query.matches matchesStr
+  cases hk : k.frag with
+  | none =>
+    have hd : ∃ d, didStr (E.did k.did ++ E.pq k.pq) = d := ⟨_, rfl⟩
+    simp only [full_nofrag _ _ (E.did_full _) c3 p2]
+    cases didStr (E.did k.did ++ E.pq k.pq) <;> cases i.frag <;> simp
+  | some f =>
+    obtain ⟨f1, f2⟩ := E.frag_clean f
+    obtain ⟨a, b⟩ := full_parts _ _ _ (E.did_full k.did) c1 c2 c3 p1 p2 f1
+    simp only [a, b]
+    have : (E.frag f).isEmpty = false := by cases h : E.frag f <;> simp_all
+    simp only [this, Bool.false_eq_true, if_false]
+    cases i.frag with
+    | none => simp
+    | some g =>
+      simp only [Option.map_some]
+      rw [beq_enc E.did E.did_inj, beq_enc E.frag E.frag_inj]
+
+/-- **`#fragment` and the bare fragment are the abstract query without a DID** -/
+theorem str_hash (E : Enc) (f : Nat) (i : Id) :
+    matchesStr (cHash :: E.frag f) (E.did i.did) (i.frag.map E.frag) = (Query.mk none (some f)).matches i := by
+  obtain ⟨f1, f2⟩ := E.frag_clean f
+  rw [matches_hash _ _ _ f1]
+  have : (E.frag f).isEmpty = false := by cases h : E.frag f <;> simp_all
+  unfold Query.matches
+  cases i.frag with
+  | none => simp [this]
+  | some g =>
+    simp only [this, Bool.not_false, Bool.true_and, Option.map_some]
+    rw [Bool.eq_iff_iff]; simp only [beq_iff_eq, Option.some.injEq]
+    exact ⟨fun h => (E.frag_inj _ _ h).symm, fun h => h ▸ rfl⟩
+
+theorem str_bare (E : Enc) (f : Nat) (i : Id) :
+    matchesStr (E.frag f) (E.did i.did) (i.frag.map E.frag) = (Query.mk none (some f)).matches i := by
+  obtain ⟨f1, f2⟩ := E.frag_clean f
+  rw [matches_bare _ _ _ f1 (E.frag_notfull f)]
+  have : (E.frag f).isEmpty = false := by cases h : E.frag f <;> simp_all
+  unfold Query.matches
+  cases i.frag with
+  | none => simp [this]
+  | some g =>
+    simp only [this, Bool.not_false, Bool.true_and, Option.map_some]
+    rw [Bool.eq_iff_iff]; simp only [beq_iff_eq, Option.some.injEq]
+    exact ⟨fun h => (E.frag_inj _ _ h).symm, fun h => h ▸ rfl⟩
+
+-- "did-key" (a fragment that merely starts with the letters d i d) is not DID-URL-like under the prefix `did:`
+example : isFull [100, 105, 100, 45, 107] = false := by decide
+example : matchesStr [100, 105, 100, 45, 107] [100, 105, 100, 58, 109, 58, 97] (some [100, 105, 100, 45, 107]) = true := by decide
+
+/-- the strings of the correspondence run are an instance: DIDs `did:m:a…a`, fragments `k…k` -/
+example : Enc where
+  did := fun d => [100, 105, 100, 58, 109, 58] ++ List.replicate (d + 1) 97
+  frag := fun f => List.replicate (f + 1) 107
+  pq := fun _ => []
+  did_inj := by
+    intro a b h
+    have := congrArg List.length h
+    simp at this; omega
+  frag_inj := by
+    intro a b h
+    have := congrArg List.length h
+    simp at this; omega
+  did_full := by intro d; simp [isFull, Gen.C04.queryPrefix, List.isPrefixOf]
+  did_clean := by intro d; simp [cQmark, cSlash, cHash, List.mem_replicate]
+  frag_clean := by intro f; simp [cHash, List.mem_replicate, List.replicate_succ]
+  frag_notfull := by intro f; simp [isFull, Gen.C04.queryPrefix, List.replicate_succ, List.isPrefixOf]
+  pq_ok := by intro p; simp [cHash]
+
+end QueryStrings
 
 end IdModel.Props.C04
